@@ -37,7 +37,7 @@ var (
 	ports     = []string{"", "", "", ":8080", ":8443", ":3000"}
 	dirSegs   = []string{"a", "b", "img", "css", "js", "static", "assets", "images", "v1.2", "x_y", "a-b", "~u", "2024", "wp-content", "media"}
 	fileSegs  = []string{"pic.png", "main.min.css", "app.js", "x.jpg", "0.gif", "logo.svg", "font.woff2", "clip.mp4", "a.mp3", "page.html", "about", "index", "p1", "file_2.webp", "A.PNG"}
-	queries   = []string{"v=1", "id=42", "a=b", "x=", "t=1700000000", "q=abc"}
+	queries   = []string{"v=1", "id=42", "a=b", "x=", "t=1700000000", "q=abc", "b=2&a=1", "w=640&h=480&fit=crop"}
 	frags     = []string{"top", "s1", "x", ""}
 )
 
@@ -501,6 +501,9 @@ func (g *hgen) scriptEl() *Node {
 		a := g.refAttr("src", false)
 		// keep the outer-HTML sweep inside the modelled alphabet (see script_closed in HtmlHarness.v)
 		a.R.Fr = nil
+		if a.R.Q != nil && strings.Contains(*a.R.Q, "&") {
+			a.R.Q = sp("v=1")
+		}
 		at = append(at, a)
 		g.tag("plant-script-src")
 	} else {
